@@ -94,6 +94,59 @@ static void both_paths(struct uftrace_opts *opts, int sock, int tid, unsigned ch
 	free(shm);
 }
 
+/* SEVERAL WRITER THREADS on the one socket (cmds/record.c writer_thread -> write_buffer -> send_trace_data):
+ * a block of consecutive `tdata` ops is executed by as many threads as the ops name, each thread sending its
+ * buffers in order, all at the same time; the interposed writev() yields after a short count so that another
+ * thread gets its turn in the middle of a message - exactly what a full socket buffer does. */
+struct tblock {
+	struct c16_client *c;
+	int sock, thread, from, to;
+};
+
+static void *tblock_run(void *arg)
+{
+	struct tblock *b = arg;
+	struct uftrace_opts opts;
+	int i;
+
+	memset(&opts, 0, sizeof(opts));
+	opts.dirname = b->c->localdir;
+	for (i = b->from; i < b->to; i++) {
+		struct c16_op *op = &b->c->ops[i];
+		size_t len = 0;
+		unsigned char *data;
+
+		if (op->kind != OP_TDATA || op->thread != b->thread)
+			continue;
+		data = unhex(op->arg, &len);
+		both_paths(&opts, b->sock, (int)op->num, data, len);
+		free(data);
+	}
+	return NULL;
+}
+
+static int run_tblock(struct c16_client *c, int sock, int from)
+{
+	pthread_t th[16];
+	struct tblock tb[16];
+	int to = from, nth = 0, t;
+
+	while (to < c->nops && c->ops[to].kind == OP_TDATA) {
+		if (c->ops[to].thread + 1 > nth)
+			nth = c->ops[to].thread + 1;
+		to++;
+	}
+	if (nth > 16)
+		nth = 16;
+	for (t = 0; t < nth; t++) {
+		tb[t] = (struct tblock){ .c = c, .sock = sock, .thread = t, .from = from, .to = to };
+		pthread_create(&th[t], NULL, tblock_run, &tb[t]);
+	}
+	for (t = 0; t < nth; t++)
+		pthread_join(th[t], NULL);
+	return to;
+}
+
 /* runs the ops of one client; returns the exit status */
 int c16_client(struct c16_client *c, int sock)
 {
@@ -108,6 +161,11 @@ int c16_client(struct c16_client *c, int sock)
 		size_t len = 0;
 		unsigned char *data = NULL;
 		char num[64];
+
+		if (op->kind == OP_TDATA) {
+			i = run_tblock(c, sock, i) - 1;
+			continue;
+		}
 
 		switch (op->kind) {
 		case OP_DIR:
@@ -178,6 +236,7 @@ int c16_client(struct c16_client *c, int sock)
 				usleep(1000);
 			break;
 		}
+		case OP_TDATA: /* handled above */
 		case OP_ABORT: /* handled by the caller once everything is sent */
 			break;
 		case OP_SLEEP:
